@@ -100,6 +100,8 @@ def build_pool(seed, tier):
         r = rng.random()
         if r < 0.15:
             return rng.choice(corpus.STATEFUL)
+        if r < 0.22:
+            return (rng.choice([None, None, "postgres", "snowflake", "duckdb", "oracle"]), rng.choice(corpus.SOFT_KEYWORDS))
         if ext and r < 0.6:
             return ext[rng.randrange(len(ext))]
         if idf and r < 0.8:
@@ -129,7 +131,9 @@ def build_pool(seed, tier):
             calls.append({"op": "parse", "sql": s, "read": d, "error_level": rng.choice([None, "IMMEDIATE", "RAISE", "WARN", "IGNORE"])})
         else:
             src = rng.random()
-            if src < 0.45:
+            if src < 0.12:
+                d, s, sch = None, rng.choice(corpus.TYPED), "none"
+            elif src < 0.45:
                 d, s, sch = None, _gen_query(rng), "xyz"
             elif src < 0.65:
                 d, s, sch = None, rng.choice(corpus.SCHEMA_QUERIES), "xyz"
@@ -141,7 +145,9 @@ def build_pool(seed, tier):
             if d is None and rng.random() < 0.3:
                 d = rng.choice(["duckdb", "snowflake", "bigquery", "postgres", "spark", "mysql", "tsql"])
             k = rng.random()
-            if k < 0.45:
+            if sch == "none":
+                calls.append({"op": "annotate_raw", "sql": s, "read": d})
+            elif k < 0.45:
                 calls.append({"op": "optimize", "sql": s, "read": d, "schema": sch, "pretty": rng.random() < 0.2})
             elif k < 0.6:
                 calls.append({"op": "qualify", "sql": s, "read": d, "schema": sch})
@@ -246,7 +252,16 @@ def generate(prop, run_seed, tier):
         if "gc" in faults and rng.random() < 0.05:
             steps.append({"op": "gc", "how": rng.choice(["collect", "collect", "disable", "enable"])})
             continue
-        if "failing_step" in faults and rng.random() < 0.12:
+        if "failing_step" in faults and rng.random() < 0.12 and rng.random() < 0.4:
+            # a valid statement cut short at a token boundary: fails in the middle of whatever construct it was in
+            src = dict(hot[rng.randrange(len(hot))] if rng.random() < 0.5 else pool[rng.randrange(len(pool))])
+            words = (src.get("sql") or "SELECT a").split(" ")
+            cut = " ".join(words[: max(1, rng.randrange(1, len(words) + 1))])
+            c = {"op": rng.choice(["parse", "transpile"]), "sql": cut, "read": src.get("read"), "write": src.get("write") or src.get("read")}
+            if c["op"] == "parse":
+                c["error_level"] = rng.choice([None, "RAISE", "IMMEDIATE"])
+                c.pop("write")
+        elif "failing_step" in faults and rng.random() < 0.12:
             base = dict(rng.choice(failing)) if failing and rng.random() < 0.5 else {"op": rng.choice(["parse", "generate", "transpile"]), "sql": rng.choice(corpus.FAILING)[1], "read": rng.choice([None, "bigquery", "duckdb"]), "write": "duckdb"}
             if base["op"] == "parse":
                 base.setdefault("error_level", rng.choice([None, "RAISE", "IMMEDIATE"]))
